@@ -129,6 +129,12 @@ func validateFileNodeParameters(path string, digest Digest) error {
 	if path != normalizedPath {
 		return fmt.Errorf("path %q was not equal to normalized path %q", path, normalizedPath)
 	}
+	// A manifest is line-based: a line feed in a path would end the file node's
+	// line, so the manifest could not be parsed back, and the rest of the path
+	// could imitate further file nodes.
+	if strings.Contains(path, "\n") {
+		return fmt.Errorf("path %q contains a line feed, which a manifest cannot represent", path)
+	}
 	if digest == nil {
 		return errors.New("no digest specified")
 	}
